@@ -39,7 +39,7 @@ RULE = ('exhaustive: file type (rvint, pack9, packedpid, pid) x load in {None} +
         'names, other header styles, empty files, and an error stream: all 16 presence patterns of the four known raw '
         'keys x colname in {None, each known key, two non-standard names}; distinct = distinct call signatures; '
         'a case is non-trivial when the file has at least one record')
-TRUSTED = ['asdf 5.4 (file round trip of the synthetic files), astropy Table (add_column(copy=False), slicing, meta)',
+TRUSTED = ['asdf 5.4 (file round trip of the synthetic files; validate_on_read switched off for speed), astropy Table (add_column(copy=False), slicing, meta)',
            'column values are compared bit for bit with direct calls of bitpacked.unpack_rvint / unpack_pids and '
            'pack9.unpack_pack9 on the same raw arrays; those decoders are tied to Lean models by C04 and C15',
            'harness/partfiles.py writes exactly the arrays the harness keeps in memory (uncompressed ASDF)']
@@ -341,7 +341,15 @@ def corpus_cases(ctx, files, xfiles, efiles):
     return out
 
 
+def asdf_fast():
+    """schema validation of the (harness-written) files on every open costs 20 ms per call and is no part of the
+    property: switch it off in this process"""
+    import asdf
+    asdf.get_config().validate_on_read = False
+
+
 def run(ctx):
+    asdf_fast()
     files, xfiles, efiles = build_files(ctx)
     cases = corpus_cases(ctx, files, xfiles, efiles)
     ctx.count('corpus', len(cases))
@@ -355,6 +363,7 @@ def run(ctx):
 def intensify(ctx):
     """more files (other sizes, boxes), same exhaustive call space"""
     import partfiles as pf
+    asdf_fast()
     for rep in range(3):
         files = {}
         for ftype in KNOWN:
@@ -373,6 +382,7 @@ def intensify(ctx):
 
 def replay(ctx, doc):
     c = dict(doc['failure']['case'] if 'failure' in doc else doc)
+    asdf_fast()
     files, xfiles, efiles = build_files(ctx)
     allf = {p.tag: p for p in list(files.values()) + xfiles + efiles}
     f = allf.get(c.pop('file', None))
